@@ -1,6 +1,7 @@
 """C02 - init protocol: order, exactly-once, hook arguments, failure propagation."""
 from . import c01 as _c01
-from .c01 import HEADER, CASE_TYPE, CHECK, MODEL, rerun, distribution, extra, EXTRA_TRUSTED, ASSUMPTIONS  # noqa: F401
+from .c01 import HEADER, CASE_TYPE, CHECK, MODEL, rerun, distribution, EXTRA_TRUSTED, ASSUMPTIONS  # noqa: F401
+from . import c02_compose as _compose
 from . import vlib
 
 PROP = "C02"
@@ -9,7 +10,14 @@ RULE = ("the class specifications and call shapes of C01 (see evidence/C01.json)
         "arguments incl. instance/field, validator arguments + snapshot of all fields at call time, "
         "post-init) is compared, then one run with validators globally disabled and, for EVERY position k "
         "of the trace, one run in which the k-th callback raises a marked exception (identity and trace "
-        "prefix compared); BaseException.args for auto_exc classes. non-trivial = class with >=1 field")
+        "prefix compared); BaseException.args for auto_exc classes. non-trivial = class with >=1 field. "
+        "Composite family (C02/Compose.v): classes whose fields carry converter lists / pipe() mixing plain "
+        "callables and Converter(takes_self, takes_field) members, validator lists, nested and shared and_() "
+        "composites with duplicate members, and @x.validator on top of a composite; every member's call "
+        "(arguments, instance/field forwarding, order, multiplicity) is traced fault-free with validators on "
+        "and off and once per trace position with that member raising")
+
+EXTRA_TARGETS = ("theories/C02/ComposeProofs.vo",)
 
 
 def generate(tier, seed):
@@ -22,3 +30,22 @@ def corpus():
     m = importlib.util.module_from_spec(spec)
     spec.loader.exec_module(m)
     return [(k, f) for k, f in m.ALL.items() if "_C02_" in k]
+
+
+def extra(tier, seed):
+    disc, cov = _c01.extra(tier, seed)
+    d2, c2 = _compose.run(tier, seed, PROP)
+    cov = dict(cov)
+    cov.update(c2)
+    return list(disc) + d2, cov
+
+
+def replay_override(inp):
+    if "compose_spec" not in inp:
+        return None
+    term, seen, prob = _compose.rerun(inp)
+    if prob is not None:
+        return True, seen, "(the run itself is outside the model: %s)" % prob
+    bad = vlib.run_cases(PROP, _compose.HEADER, _compose.CASE_TYPE, _compose.CHECK, [term], tag="replay")
+    says = vlib.eval_in_coq(PROP, _compose.HEADER, "%s (%s)" % (_compose.MODEL, term))
+    return bool(bad), seen, says
